@@ -929,8 +929,419 @@ def stream_numeric(ctx):
     return st
 
 
+# ---------------------------------------------------------------- hardening: state, types, bands, asymmetry
+
+def tensor_fermion_jop(constant, one, two, dch=False):
+    """the fermion operator a tensor object denotes, built from scratch by the checker:
+    constant + sum T[p,q] p^ q + sum V[p,q,r,s] p^ q^ r s   (DiagonalCoulombHamiltonian: V[p,q] p^ p q^ q)"""
+    import numpy
+    acc = {}
+
+    def add(t, c):
+        c = complex(c)
+        if c != 0:
+            acc[t] = acc.get(t, 0) + c
+    add((), constant)
+    for idx in numpy.ndindex(*one.shape):
+        add(((idx[0], 1), (idx[1], 0)), one[idx])
+    for idx in numpy.ndindex(*two.shape):
+        if dch:
+            add(((idx[0], 1), (idx[0], 0), (idx[1], 1), (idx[1], 0)), two[idx])
+        else:
+            add(((idx[0], 1), (idx[1], 1), (idx[2], 0), (idx[3], 0)), two[idx])
+    return [[[[i, a] for i, a in t], to_gq(c)] for t, c in acc.items()]
+
+
+def small_band(rng):
+    return rng.choice([-3, -1, 1, 3]) * 2.0 ** (-rng.randint(13, 20))
+
+
+def retype(rng, op):
+    import numpy
+    for t in list(op.terms):
+        c = op.terms[t]
+        r = rng.random()
+        if isinstance(c, complex):
+            op.terms[t] = numpy.complex64(c) if r < 0.5 else numpy.complex128(c)
+        elif isinstance(c, float):
+            op.terms[t] = numpy.float32(c) if r < 0.5 else numpy.float64(c)
+        elif isinstance(c, int) and not isinstance(c, bool):
+            op.terms[t] = numpy.int64(c) if r < 0.7 else numpy.int32(c)
+    return op
+
+
+def stream_hardening(ctx):
+    import numpy
+    import scipy.sparse
+    of = ctx.of
+    from openfermion.linalg import sparse_tools as stl
+    from openfermion.linalg import linear_qubit_operator as lq
+    Q, F = of.QubitOperator, of.FermionOperator
+    st = Stream('state-types-bands-asymmetry', '(S) every matrix / vector producing function is called, its result edited in place, '
+                'and called again: the second result must equal the first, share no memory with it, and the arguments '
+                '(operator terms, tensor arrays, vectors, states) must be unchanged; (T) numpy-scalar coefficients '
+                '(complex64 / float32 / int64 / int32), vectors of dtype int32 .. complex128, Fortran-ordered blocks, '
+                'numpy integer n_qubits, tensor dtypes; (B) coefficients of magnitude 1e-4 .. 1e-6 next to O(1), count_qubits '
+                'with indices >= 257; (A) InteractionOperator / PolynomialTensor / DiagonalCoulombHamiltonian with complex '
+                'constants and complex non-Hermitian tensors against the operator built from the tensors by the checker; '
+                'all compared exactly with the Model and the Spec matrix; distinct = distinct inputs')
+    B = Batch(ctx)
+    rng = rng_for(ctx.seed, 'c06-hardening')
+    n_cases = budget(ctx.tier, 30, 400)
+    if ctx.drift:
+        n_cases = max(n_cases, 120)
+
+    def terms_snap(op):
+        return [(t, to_gq(c), type(c).__name__) for t, c in op.terms.items()]
+
+    def dense(x):
+        return x.toarray() if scipy.sparse.issparse(x) else numpy.array(x)
+
+    def mem(x):
+        return x.data if scipy.sparse.issparse(x) else x
+
+    def spoil(x):
+        if scipy.sparse.issparse(x):
+            x.data *= 3
+            x.data += 1
+        else:
+            x += 1.0
+
+    def twice(name, case, f, ops=(), arrays=()):
+        """(S): call, edit the result in place, call again"""
+        st.case(dict(case, fn='state:' + name))
+        st.count('state:' + name)
+        before_t = [terms_snap(o) for o in ops]
+        before_a = [numpy.array(a, copy=True) for a in arrays]
+        kind, r1 = safe(f)
+        if kind == 'err':
+            st.violate(name + ' raised', case, r1)
+            return None
+        first = dense(r1).copy()
+        for a in arrays:
+            if isinstance(a, numpy.ndarray) and isinstance(mem(r1), numpy.ndarray) and numpy.shares_memory(mem(r1), a):
+                st.violate(name + ': the result shares memory with an argument', case, None)
+        try:
+            spoil(r1)
+        except Exception:
+            r1 = None
+        kind, r2 = safe(f)
+        if kind == 'err':
+            st.violate(name + ' raised on the second call', case, r2)
+            return first
+        if dense(r2).shape != first.shape or not numpy.array_equal(dense(r2), first):
+            st.violate(name + ': second call after an in-place edit of the first result differs', case,
+                       {'first': first.tolist()[:8] if first.ndim == 1 else None})
+        if r1 is not None and isinstance(mem(r1), numpy.ndarray) and isinstance(mem(r2), numpy.ndarray) \
+                and mem(r1).size and numpy.shares_memory(mem(r1), mem(r2)):
+            st.violate(name + ': two results share memory', case, None)
+        if [terms_snap(o) for o in ops] != before_t:
+            st.violate(name + ' modified an operator argument', case, None)
+        for a, b0 in zip(arrays, before_a):
+            if not numpy.array_equal(numpy.asarray(a), b0):
+                st.violate(name + ' modified an array argument', case, None)
+        return first
+
+    # ---- (S) on the qubit functions; X/Y-only and zero operators included (shared scratch vectors)
+    for k in range(n_cases):
+        nq = rng.randint(1, 3)
+        r = rng.random()
+        if r < 0.2:
+            op = Q()
+        elif r < 0.5:
+            op = Q()
+            for _ in range(rng.randint(1, 3)):
+                qs = sorted(rng.sample(range(nq), rng.randint(1, nq)))
+                op += Q(tuple((q, rng.choice('XY')) for q in qs), dyadic(rng, max_num=3, max_pow=1))
+        else:
+            op = rand_qubit_op(rng, of, nq, rng.randint(1, 4))
+        n = of.count_qubits(op) + rng.choice([0, 1])
+        jop = enc_op('qubit', op.terms)
+        case = {'a': jop, 'n_qubits': n}
+        x = numpy.array([complex(rng.randint(-3, 3), rng.randint(-3, 3)) / 2 for _ in range(2 ** n)])
+        d = twice('get_linear_qubit_operator_diagonal', case, lambda: stl.get_linear_qubit_operator_diagonal(op, n), [op])
+        if d is not None:
+            def cbd(s_, d=d, case=case, n=n):
+                S = j_entries(s_)
+                want = [S.get((i, i), (Fraction(0), Fraction(0))) for i in range(2 ** n)]
+                if want != [fr(v) for v in d]:
+                    st.violate('diagonal != diagonal of the matrix of the operator', case, None)
+            B.ask({'op': 'c06.spec_matrix', 'alg': 'qubit', 'n': n, 'a': jop}, cbd)
+        twice('get_sparse_operator(QubitOperator)', case, lambda: of.get_sparse_operator(op, n), [op])
+        twice('LinearQubitOperator * x', case, lambda: of.LinearQubitOperator(op, n) * x, [op], [x])
+        X2 = numpy.asfortranarray(numpy.eye(2 ** n)[:, :2] * (1 + 0.5j))
+        twice('LinearQubitOperator * block', case, lambda: of.LinearQubitOperator(op, n) * X2, [op], [X2])
+
+        class Opt(lq.LinearQubitOperatorOptions):
+            def get_pool(self, num=None):
+                return FakePool(list(range(num or 0))[::-1])
+        twice('ParallelLinearQubitOperator * x', case,
+              lambda: of.ParallelLinearQubitOperator(op, n, Opt(processes=2)) * x, [op], [x])
+        # operator groups are fresh objects
+        before = terms_snap(op)
+        kind, gs = safe(lambda: list(op.get_operator_groups(2)))
+        if kind == 'ok':
+            for g in gs:
+                g *= 5
+                g.terms[((0, 'X'),)] = 9
+            if terms_snap(op) != before:
+                st.violate('editing an operator group changed the operator', case, None)
+    # ---- (S) fermionic and bosonic constructions
+    for k in range(n_cases):
+        n = rng.randint(1, 3)
+        fop = rand_fermion_op(rng, of, n, rng.randint(1, 3))
+        nq = max(of.count_qubits(fop), 1)
+        case = {'a': enc_op('fermion', fop.terms), 'n_qubits': nq}
+        twice('jordan_wigner_sparse', case, lambda: stl.jordan_wigner_sparse(fop, nq), [fop])
+        j = rng.randrange(nq)
+        ty = rng.randint(0, 1)
+        twice('jordan_wigner_ladder_sparse', {'n': nq, 'j': j, 'type': ty}, lambda: stl.jordan_wigner_ladder_sparse(nq, j, ty))
+        tr = rng.randint(2, 3)
+        twice('boson_ladder_sparse', {'trunc': tr, 'type': ty}, lambda: stl.boson_ladder_sparse(1, 0, ty, tr))
+        twice('single_quad_op_sparse', {'trunc': tr}, lambda: stl.single_quad_op_sparse(1, 0, rng.choice('qp') if False else 'q', 2.0, tr))
+        bop = of.BosonOperator(((0, ty),), 0.5) + of.BosonOperator(((0, 1), (0, 0)), 1.0)
+        twice('boson_operator_sparse', {'trunc': tr}, lambda: of.get_sparse_operator(bop, trunc=tr), [bop])
+        # expectation / variance leave operator and state alone
+        M = stl.jordan_wigner_sparse(fop, nq)
+        Md = M.toarray().copy()
+        psi = numpy.array([complex(rng.randint(-2, 2), rng.randint(-2, 2)) / 2 for _ in range(2 ** nq)])
+        psi0 = psi.copy()
+        rho = scipy.sparse.csc_matrix(numpy.outer(psi, psi.conj()))
+        rho0 = rho.toarray().copy()
+        kind, _ = safe(lambda: (of.expectation(M, psi), of.variance(M, psi), of.expectation(M, rho), of.variance(M, rho),
+                                of.expectation(M, psi.reshape(-1, 1))))
+        st.count('state:expectation-arguments')
+        if kind == 'err' or not (numpy.array_equal(M.toarray(), Md) and numpy.array_equal(psi, psi0)
+                                 and numpy.array_equal(rho.toarray(), rho0)):
+            st.violate('expectation / variance modified the operator or the state', case, None)
+        h = fop + of.hermitian_conjugated(fop)
+        twice('eigenspectrum', case, lambda: numpy.asarray(of.eigenspectrum(h, nq)), [h])
+
+    # ---- (A) tensors with complex constants and complex non-Hermitian entries, (T) tensor dtypes / memory order
+    def cval(kind):
+        if kind == 'imag':
+            return complex(0, rng.choice([-3, -1, 1, 2]) / 2 ** rng.randint(0, 2))
+        if kind == 'real':
+            return float(rng.choice([-3, -1, 1, 2, 4]) / 2 ** rng.randint(0, 2))
+        return complex(rng.randint(-4, 4) / 2 ** rng.randint(0, 2), rng.choice([-3, -1, 1, 2]) / 2 ** rng.randint(0, 2))
+    # probe once per run which tensor dtypes the tree accepts at all (a rejected dtype is excluded, never an alarm)
+    accepted = {}
+    for kt in ('interaction', 'poly', 'dch'):
+        for dtp in ('float64', 'float32', 'int64', 'complex128', 'complex64'):
+            o1 = numpy.array([[1, 2], [0, 1]]).astype(dtp)
+            try:
+                if kt == 'interaction':
+                    obj = of.InteractionOperator(1.0, o1, numpy.zeros((2, 2, 2, 2), dtype=dtp))
+                elif kt == 'poly':
+                    obj = of.PolynomialTensor({(): 1.0, (1, 0): o1})
+                else:
+                    obj = of.DiagonalCoulombHamiltonian(o1 + o1.T, numpy.eye(2), 1.0)
+                of.get_sparse_operator(obj)
+                accepted[(kt, dtp)] = True
+            except Exception:
+                accepted[(kt, dtp)] = False
+                st.count('tensor:dtype-rejected-by-the-tree:%s:%s' % (kt, dtp))
+    for k in range(n_cases):
+        size = rng.randint(1, 3)
+        kindt = rng.choice(['interaction', 'poly', 'dch'])
+        kind = rng.choice(['complex', 'imag', 'real'])
+        dt = {'real': rng.choice(['float64', 'float32', 'int64']), 'imag': rng.choice(['complex128', 'complex64']),
+              'complex': rng.choice(['complex128', 'complex64'])}[kind]
+        if not accepted.get((kindt, dt), False):
+            dt = 'complex128' if dt.startswith('complex') else 'float64'
+        one = numpy.zeros((size, size), dtype=complex)
+        for i in range(size):
+            for j in range(size):
+                if rng.random() < 0.6:
+                    one[i, j] = cval(kind)
+        if kindt == 'dch':
+            two = numpy.zeros((size, size), dtype=complex)
+            for i in range(size):
+                for j in range(size):
+                    if rng.random() < 0.5:
+                        two[i, j] = cval(kind)
+        else:
+            two = numpy.zeros((size,) * 4, dtype=complex)
+            for _ in range(rng.randint(0, 4)):
+                two[tuple(rng.randrange(size) for _ in range(4))] = cval(kind)
+        if dt == 'int64':
+            one, two = numpy.round(one.real * 4), numpy.round(two.real * 4)
+        if kind == 'real':
+            one, two = one.real, two.real
+        one, two = one.astype(dt), two.astype(dt)
+        if kindt == 'dch':
+            # the class insists on a real symmetric float64 two-body matrix and a Hermitian one-body matrix;
+            # the constant may be complex.  The constructor edits its arguments, so it gets copies.
+            two = numpy.real(two).astype('float64')
+            two = two + two.T
+            one = one + one.conj().T
+        orig_one, orig_two = one.copy(), two.copy()
+        if rng.random() < 0.3:
+            one, two = numpy.asfortranarray(one), numpy.asfortranarray(two)
+        const = rng.choice([cval('complex'), cval('imag'), 0.5, 2])
+        if kindt == 'interaction':
+            mk = lambda: of.InteractionOperator(const, one, two)
+        elif kindt == 'poly':
+            mk = lambda: of.PolynomialTensor({(): const, (1, 0): one, (1, 1, 0, 0): two})
+        else:
+            mk = lambda: of.DiagonalCoulombHamiltonian(one.copy(), two.copy(), const)
+        kindc, op = safe(mk)
+        if kindc == 'err':
+            st.count('tensor:constructor-rejected:' + kindt)
+            continue
+        # the object may normalise its tensors (DiagonalCoulombHamiltonian): read them back
+        if kindt == 'dch':
+            # semantics of the ORIGINAL arguments: sum T[p,q] p^ q + sum V[p,q] n_p n_q + constant
+            c_, o_, t_ = const, orig_one, orig_two
+        elif kindt == 'interaction':
+            c_, o_, t_ = op.constant, numpy.array(op.one_body_tensor), numpy.array(op.two_body_tensor)
+        else:
+            c_, o_, t_ = op.n_body_tensors[()], numpy.array(op.n_body_tensors[(1, 0)]), numpy.array(op.n_body_tensors[(1, 1, 0, 0)])
+        jop = tensor_fermion_jop(c_, o_, t_, dch=(kindt == 'dch'))
+        extra = rng.choice([None, 0, 1])
+        n_arg = None if extra is None else size + extra
+        if n_arg is not None and rng.random() < 0.5:
+            n_arg = numpy.int64(n_arg)
+        n = size if n_arg is None else int(n_arg)
+        case = {'fn': 'get_sparse_operator', 'cls': kindt, 'kind': kind, 'dtype': dt, 'size': size, 'a': jop,
+                'n_qubits': None if n_arg is None else int(n_arg), 'constant': [complex(const).real, complex(const).imag]}
+        if kindt == 'dch':
+            live = [op.one_body, op.two_body]
+        elif kindt == 'interaction':
+            live = [op.one_body_tensor, op.two_body_tensor]
+        else:
+            live = [op.n_body_tensors[(1, 0)], op.n_body_tensors[(1, 1, 0, 0)]]
+        first = twice('get_sparse_operator(%s)' % kindt, case, lambda: of.get_sparse_operator(op, n_arg), [], live)
+        st.count('tensor:%s:%s:%s' % (kindt, kind, dt))
+        kindc, M = safe(of.get_sparse_operator, op, n_arg)
+        if kindc == 'err':
+            continue
+        if M.shape != (2 ** n, 2 ** n):
+            st.violate('shape %s is not 2^n_qubits = %d' % (M.shape, 2 ** n), case, None)
+            continue
+        E = mat_entries(M)
+
+        def cbt(s_, E=E, case=case):
+            st.count('oracle:spec-matrix')
+            if j_entries(s_) != E:
+                bad = sorted(set(j_entries(s_).items()) ^ set(E.items()))[:6]
+                st.violate('matrix != matrix of the operator the tensors denote (big-endian basis)', case,
+                           {'differing_entries': [[k_[0], k_[1], str(v[0]), str(v[1])] for k_, v in bad]})
+        B.ask({'op': 'c06.spec_matrix', 'alg': 'fermion', 'n': n, 'a': jop}, cbt)
+
+    # ---- (T) numpy-scalar coefficients / vector dtypes / numpy n_qubits, (B) small bands
+    for k in range(n_cases * 3):
+        cls = 'qubit' if k % 3 else 'fermion'
+        variant = rng.choice(['numpy-scalars', 'small-band', 'imaginary'])
+        nq = rng.randint(1, 4) if cls == 'qubit' else rng.randint(1, 3)
+        op = rand_qubit_op(rng, of, nq, rng.randint(1, 4)) if cls == 'qubit' else rand_fermion_op(rng, of, nq, rng.randint(1, 3))
+        if variant == 'small-band':
+            for t in list(op.terms):
+                if rng.random() < 0.5:
+                    op.terms[t] = small_band(rng) * (1j if rng.random() < 0.3 else 1)
+        elif variant == 'imaginary':
+            for t in list(op.terms):
+                op.terms[t] = complex(0, rng.choice([-3, -1, 1, 2]) / 2 ** rng.randint(0, 2))
+        else:
+            retype(rng, op)
+        jop = enc_op(cls, op.terms)
+        cnt = of.count_qubits(op)
+        n = cnt + rng.choice([0, 1])
+        n_arg = numpy.int64(n) if rng.random() < 0.4 else n
+        case = {'fn': 'get_sparse_operator', 'cls': cls, 'variant': variant, 'a': jop, 'n_qubits': n,
+                'coefficient_types': sorted({type(c).__name__ for c in op.terms.values()}),
+                'n_type': type(n_arg).__name__}
+        st.case(case)
+        st.count('types:%s:%s' % (cls, variant))
+        kind, M = safe(of.get_sparse_operator, op, n_arg)
+        if kind == 'err':
+            st.violate('get_sparse_operator raised', case, M)
+            continue
+        if M.shape != (2 ** n, 2 ** n):
+            st.violate('shape', case, M.shape)
+            continue
+        E = mat_entries(M)
+
+        def cbm(m, E=E, case=case):
+            if isinstance(m, dict) and 'error' in m or j_entries(m['entries']) != E:
+                st.disagree('matrix entries', case, show_entries(E), m if 'error' in m else show_entries(j_entries(m['entries'])))
+        B.ask({'op': 'c06.qubit_sparse' if cls == 'qubit' else 'c06.jw_sparse', 'a': jop, 'n': n}, cbm)
+
+        def cbs(s_, E=E, case=case):
+            st.count('oracle:spec-matrix')
+            if j_entries(s_) != E:
+                st.violate('matrix != matrix of the operator in the big-endian basis', case, None)
+        B.ask({'op': 'c06.spec_matrix', 'alg': cls, 'n': n, 'a': jop}, cbs)
+        if cls == 'qubit':
+            dt = rng.choice(['int32', 'int64', 'float32', 'float64', 'complex64', 'complex128'])
+            if dt.startswith('complex'):
+                x = numpy.array([complex(rng.randint(-2, 2), rng.randint(-2, 2)) / 2 for _ in range(2 ** n)]).astype(dt)
+            elif dt.startswith('float'):
+                x = numpy.array([rng.randint(-4, 4) / 4 for _ in range(2 ** n)]).astype(dt)
+            else:
+                x = numpy.array([rng.randint(-4, 4) for _ in range(2 ** n)]).astype(dt)
+            vcase = dict(case, fn='LinearQubitOperator', x_dtype=dt, x=[[complex(v).real, complex(v).imag] for v in x])
+            st.case(vcase)
+            kind, y = safe(lambda: of.LinearQubitOperator(op, n_arg) * x)
+            if kind == 'err':
+                st.violate('matvec raised', vcase, y)
+            else:
+                ye = [fr(v) for v in y]
+
+                def cbv(s_, ye=ye, vcase=vcase):
+                    st.count('oracle:spec-matvec')
+                    if j_vec(s_) != ye:
+                        st.violate('LinearQubitOperator * x != (matrix of the operator) x', vcase, None)
+                B.ask({'op': 'c06.spec_matvec', 'alg': 'qubit', 'n': n, 'a': jop, 'x': vec_j(x)}, cbv)
+
+                def cbw(m, ye=ye, vcase=vcase):
+                    if j_vec(m) != ye:
+                        st.disagree('matvec', vcase, [str(v) for v in ye[:8]], [str(v) for v in j_vec(m)[:8]])
+                B.ask({'op': 'c06.matvec', 'a': jop, 'x': vec_j(x)}, cbw)
+            kind, dg = safe(stl.get_linear_qubit_operator_diagonal, op, n_arg)
+            if kind == 'err':
+                st.violate('get_linear_qubit_operator_diagonal raised', case, dg)
+            else:
+                de = [fr(v) for v in dg]
+
+                def cbdg(s_, de=de, case=case, n=n):
+                    S = j_entries(s_)
+                    want = [S.get((i, i), (Fraction(0), Fraction(0))) for i in range(2 ** n)]
+                    if want != de:
+                        st.violate('diagonal != diagonal of the matrix of the operator', case, None)
+                B.ask({'op': 'c06.spec_matrix', 'alg': 'qubit', 'n': n, 'a': jop}, cbdg)
+
+    # ---- (B) count_qubits with large indices (fresh int objects)
+    for k in range(budget(ctx.tier, 40, 400)):
+        cls = rng.choice(['qubit', 'fermion'])
+        op = Q() if cls == 'qubit' else F()
+        top = 0
+        for _ in range(rng.randint(1, 4)):
+            idx = sorted({int(str(rng.choice([3, 255, 256, 257, 258, 300, 1000, 65537]) + rng.randint(0, 2)))
+                          for _ in range(rng.randint(1, 3))})
+            if cls == 'qubit':
+                op += Q(tuple((i, rng.choice('XYZ')) for i in idx), 1.0)
+            else:
+                op += F(tuple((i, rng.randint(0, 1)) for i in idx), 1.0)
+        top = max([i + 1 for t in op.terms for i, _ in t] + [0])
+        jop = enc_op(cls, op.terms)
+        case = {'fn': 'count_qubits', 'cls': cls, 'a': jop}
+        st.case(case)
+        st.count('count_qubits:large-index')
+        kind, cnt = safe(of.count_qubits, op)
+        if kind == 'err' or cnt != top:
+            st.violate('count_qubits != highest index + 1', case, {'got': str(cnt), 'want': top})
+
+        def cbc(m, cnt=cnt, case=case):
+            if m != cnt:
+                st.disagree('count_qubits', case, cnt, m)
+        B.ask({'op': 'c06.count_qubits', 'cls': cls, 'a': jop}, cbc)
+    B.flush()
+    return st
+
+
 def run(ctx):
-    return [stream_sparse(ctx), stream_linear(ctx), stream_boson(ctx), stream_numeric(ctx)]
+    return [stream_sparse(ctx), stream_linear(ctx), stream_boson(ctx), stream_numeric(ctx), stream_hardening(ctx)]
 
 
 def replay(ctx, payload):
